@@ -71,6 +71,11 @@ add("C15", "Hypothesis-generated spin-orbital expressions and target spin string
     "input on the spin orbitals of the requested spins; restricted case on models whose tensors depend on spatial labels only; non-reported blocks of allowed_spin_blocks must vanish.",
     "Trusted: spin-structured F_p model (V built from (pq|rs) with spin conservation; symmetry asserted in the self test). Tensors without known spin blocks are modelled with all blocks non-zero.")
 
+add("C02", "Hypothesis-drawn derivation requests and model Hamiltonians; reference model = Rayleigh-Schroedinger PT by explicit linear algebra in determinant space over F_p",
+    "Generated-input search: energies, closed-form MP amplitudes (generated index names), RE residuals and 1-/2-particle expectation values for mp/re, with/without first-order singles, canonical and non-canonical Fock matrices on 4 model sizes; "
+    "every derived expression is evaluated on the model (amplitudes := RSPT wavefunction coefficients) and compared exactly with the RSPT value for every index assignment.",
+    "Trusted: fock.py + rspt.py (self test: (H0 + lambda H1) Psi = E Psi order by order, anticommutators). Orders <= 3 (quick) / 4 (thorough).")
+
 NOT_YET = "check not built yet in this round (planned, see DESIGN.md)"
 
 def main():
